@@ -10,8 +10,10 @@ import (
 	"context"
 	"errors"
 	"io"
+	"os"
 	"os/exec"
 	"sync/atomic"
+	"time"
 )
 
 var ErrNotFound = exec.ErrNotFound
@@ -26,6 +28,34 @@ type Registry interface {
 	// Run executes the command: stdin in, stdout/stderr out, error as os/exec
 	// would report it. It must honour ctx.
 	Run(ctx context.Context, path string, args []string, stdin io.Reader) (stdout, stderr []byte, err error)
+}
+
+// SignalPolicy is implemented by a Registry whose commands may ignore signals
+// other than SIGKILL (a plugin that traps SIGINT, a wrapper whose child lives
+// on). Without it every signal terminates the command.
+type SignalPolicy interface {
+	Ignores(path string, args []string, sig os.Signal) bool
+}
+
+// Process mirrors the part of os.Process a Cmd.Cancel function can use.
+type Process struct {
+	Pid int
+	c   *Cmd
+}
+
+func (p *Process) Kill() error { return p.Signal(os.Kill) }
+func (p *Process) Signal(sig os.Signal) error {
+	c := p.c
+	if c.exited.Load() {
+		return os.ErrProcessDone
+	}
+	if sig != os.Kill {
+		if sp, ok := current().(SignalPolicy); ok && sp.Ignores(c.Path, c.Args[1:], sig) {
+			return nil
+		}
+	}
+	c.kill()
+	return nil
 }
 
 type holder struct{ r Registry }
@@ -58,8 +88,16 @@ type Cmd struct {
 	Env    []string
 	Dir    string
 
-	ctx  context.Context
-	real *exec.Cmd
+	// As in os/exec: Cancel is called when the context is done (default: kill
+	// the process); WaitDelay bounds the wait for the exit after that (zero:
+	// wait for as long as the process lives).
+	Cancel    func() error
+	WaitDelay time.Duration
+	Process   *Process
+
+	ctx    context.Context
+	kill   context.CancelFunc
+	exited atomic.Bool
 }
 
 func Command(name string, arg ...string) *Cmd {
@@ -73,7 +111,55 @@ func CommandContext(ctx context.Context, name string, arg ...string) *Cmd {
 func (c *Cmd) toReal() *exec.Cmd {
 	rc := exec.CommandContext(c.ctx, c.Path, c.Args[1:]...)
 	rc.Stdin, rc.Stdout, rc.Stderr, rc.Env, rc.Dir = c.Stdin, c.Stdout, c.Stderr, c.Env, c.Dir
+	if c.Cancel != nil || c.WaitDelay != 0 {
+		panic("simexec: Cmd.Cancel/WaitDelay outside a simulation")
+	}
 	return rc
+}
+
+// run starts the simulated process. The registry's Run sees the life of the
+// process as a context: done means it has been killed. With the os/exec
+// defaults the command's own context is that life (the process is killed when
+// it expires). With a Cancel function or a WaitDelay the two are separate, as
+// in os/exec: expiry calls Cancel, which may signal the process — and a
+// process that ignores the signal lives on until WaitDelay (if any) kills it.
+func (c *Cmd) run(r Registry) (out, errOut []byte, err error) {
+	if c.Cancel == nil && c.WaitDelay == 0 {
+		return r.Run(c.ctx, c.Path, c.Args[1:], c.Stdin)
+	}
+	life, kill := context.WithCancel(context.Background())
+	c.kill = kill
+	c.Process = &Process{Pid: 4242, c: c}
+	gone := make(chan struct{})
+	go func() {
+		select {
+		case <-gone:
+			return
+		case <-c.ctx.Done():
+		}
+		if c.Cancel != nil {
+			c.Cancel() // nolint:errcheck
+		} else {
+			c.Process.Kill() // nolint:errcheck
+		}
+		if c.WaitDelay > 0 {
+			t := time.NewTimer(c.WaitDelay)
+			defer t.Stop()
+			select {
+			case <-gone:
+			case <-t.C:
+				kill()
+			}
+		}
+	}()
+	out, errOut, err = r.Run(life, c.Path, c.Args[1:], c.Stdin)
+	c.exited.Store(true)
+	close(gone)
+	kill()
+	if err != nil && c.ctx.Err() != nil {
+		err = c.ctx.Err()
+	}
+	return out, errOut, err
 }
 
 var ErrExit = errors.New("exit status 1")
@@ -83,7 +169,7 @@ func (c *Cmd) Output() ([]byte, error) {
 	if r == nil {
 		return c.toReal().Output()
 	}
-	out, errOut, err := r.Run(c.ctx, c.Path, c.Args[1:], c.Stdin)
+	out, errOut, err := c.run(r)
 	if c.Stderr != nil {
 		c.Stderr.Write(errOut)
 	}
@@ -95,7 +181,7 @@ func (c *Cmd) Run() error {
 	if r == nil {
 		return c.toReal().Run()
 	}
-	out, errOut, err := r.Run(c.ctx, c.Path, c.Args[1:], c.Stdin)
+	out, errOut, err := c.run(r)
 	if c.Stdout != nil {
 		c.Stdout.Write(out)
 	}
@@ -110,7 +196,7 @@ func (c *Cmd) CombinedOutput() ([]byte, error) {
 	if r == nil {
 		return c.toReal().CombinedOutput()
 	}
-	out, errOut, err := r.Run(c.ctx, c.Path, c.Args[1:], c.Stdin)
+	out, errOut, err := c.run(r)
 	var b bytes.Buffer
 	b.Write(out)
 	b.Write(errOut)
